@@ -310,6 +310,15 @@ where
             // is judged under its own key; when the coincidence has probability below 2^-40 by
             // the harness's own bound, the plain `nonce` key (never listed) is used.
             let mut label = label;
+            if label == "context.trace_meta" {
+                // the recorded finding is about zero bytes appended to (or cut from) the end of the
+                // metadata only; any other accepted metadata edit keeps the plain, unlisted key
+                let (a, b) = (h.proof.trace_info().meta(), decoded.trace_info().meta());
+                let (short, long) = if a.len() <= b.len() { (a, b) } else { (b, a) };
+                if long.starts_with(short) && long[short.len()..].iter().all(|&x| x == 0) {
+                    label = "context.trace_meta-trailing-zeros".to_string();
+                }
+            }
             if label == "nonce" {
                 if let Ok(p) = &verdict {
                     let only_nonce = p.len() == original.len() && p.iter().zip(original.iter()).filter(|(a, b)| a != b).count() == 1;
